@@ -278,7 +278,7 @@ def walk_stmts(block):
                 yield from walk_stmts(sub)
 
 
-def subst_single_defs(f: Func, e: ast.AST, depth: int = 4) -> ast.AST:
+def subst_single_defs(f: Func, e: ast.AST, depth: int = 4, keep: Set[str] = frozenset()) -> ast.AST:
     """`e` with every local that has exactly one definition (a plain assignment to the bare name) replaced by the defining
     expression, repeatedly: `v = g(..); return v ** 0.5` is read as `return g(..) ** 0.5`."""
     defs: Dict[str, List[ast.AST]] = {}
@@ -294,7 +294,7 @@ def subst_single_defs(f: Func, e: ast.AST, depth: int = 4) -> ast.AST:
             for n in ast.walk(s.target):
                 if isinstance(n, ast.Name):
                     defs.setdefault(n.id, []).append(None)
-    single = {k: v[0] for k, v in defs.items() if len(v) == 1 and v[0] is not None and k not in f.named_params}
+    single = {k: v[0] for k, v in defs.items() if len(v) == 1 and v[0] is not None and k not in f.named_params and k not in keep}
 
     class S(ast.NodeTransformer):
         def visit_Name(self, n):
